@@ -247,7 +247,27 @@ void solver_case(vt::Rng& rng, int64_t icase)
         function = std::make_unique<intquad_t>(vector_t::zero(n), ivec(rng, n, -3, 3)); // linear objective
     }
     const auto xhat = vt::random_x0(rng, n, 2.0);
-    const auto kind = rng.range(0, 3);
+    const auto kind = rng.range(0, 4);
+    if (kind == 4)
+    {
+        // a convex quadratic inequality 0.5 (x - xhat)' P (x - xhat) <= r around the feasible point (+ sometimes a linear equality through it)
+        matrix_t B(n, n);
+        for (tensor_size_t i = 0; i < B.size(); ++i)
+        {
+            B(i) = rng.uniform(-1.0, 1.0);
+        }
+        matrix_t P(n, n);
+        P.matrix() = B.matrix().transpose() * B.matrix() + matrix_t::identity(n, n).matrix() * rng.uniform(0.1, 1.0);
+        vector_t q(n);
+        q.vector() = -P.matrix() * xhat.vector();
+        const auto r = 0.5 * xhat.dot(P.matrix() * xhat.vector()) - rng.uniform(0.2, 2.0);
+        function->constrain(constraint::quadratic_inequality_t{P, q, r});
+        if (n > 1 && rng.coin())
+        {
+            const auto a = vt::random_x0(rng, n, 1.0);
+            function->constrain(constraint::linear_equality_t{a, -a.dot(xhat)});
+        }
+    }
     if (kind == 0 || kind == 3)
     {
         for (int64_t k = 0, m = rng.range(1, n + 2); k < m; ++k)
